@@ -92,6 +92,8 @@ def run(tier, seed):
         elif diff and wf:
             rep.violation("correspondence corr:C04:parse_file broken (model and sqlc differ, code %d); the property holds on this input" % diff, replay, no_input=True)
     end_to_end(rep, accepted, tier)
+    import mysqlq
+    mysqlq.mysql_subcheck(rep, PROP, seed, 600 if tier == "quick" else 12000)
     if getattr(rep, "proof_broken", None) and not rep.violations:
         rep.violation("proof obligation no longer checks: " + rep.proof_broken, {"theorem_file": "coq/theories/Props/C04.v", "detail": info}, no_input=True)
     return rep.finish("proof", ob, dis, checker_cmd(PROP),
